@@ -1,7 +1,7 @@
 """C04 -- results are invariant under reference choices and scale with rates (run-time contracts, level B)."""
 from vf.common import Report, finish, SEED
 from vf.rtc import runner, catalogue
-from contracts import interstitial_rt as I, vacancy_rt as V
+from contracts import interstitial_rt as I, vacancy_rt as V, interstitial_sx as IS
 
 
 def main(tier):
@@ -9,6 +9,8 @@ def main(tier):
     n = len(catalogue.builders(tier, SEED))
     runner.run(rep, 'Interstitial::contract', I.w_interstitial, [(i, tier, SEED, 'C04') for i in range(n)], 'onsager/OnsagerCalc.py::Interstitial.diffusivity')
     runner.run(rep, 'VacancyMediated::contract', V.w_vacancy, [(cid, tier, SEED, 'C04') for cid in V.vac_ids(tier)], 'onsager/OnsagerCalc.py::VacancyMediated.Lij')
+
+    IS.run_all(rep, tier, 'C04:')
 
     from vf import extract
     for rel, q in [('onsager/OnsagerCalc.py', 'Interstitial.siteprob'), ('onsager/OnsagerCalc.py', 'Interstitial.ratelist'), ('onsager/OnsagerCalc.py', 'Interstitial.symmratelist'), ('onsager/OnsagerCalc.py', 'VacancyMediated.preene2betafree'), ('onsager/OnsagerCalc.py', 'VacancyMediated._symmetricandescaperates'), ('onsager/OnsagerCalc.py', 'VacancyMediated.Lij'), ('onsager/GFcalc.py', 'GFCrystalcalc.SetRates')]:
@@ -21,4 +23,4 @@ def main(tier):
 
 def annotate(rep):
     rep.gaps.append('clause (d) of the property -- sites displaced inside the cell without changing connectivity -- is not covered')
-    rep.gaps.append('the planned degree-typing proof (E2) is not built: this check is the bounded stand-in only')
+    rep.gaps.append('level S (symbolic, all prefactors / energies / shifts / factors) covers the interstitial calculator per enumerated network; the vacancy-mediated calculator (Green function, eigen-decompositions) is level B only; the planned degree-typing proof (E2) is not built')
